@@ -278,6 +278,54 @@ func routerHistories(w *vc.Writer, r *vc.Rand, lis *bufconn.Listener) {
 	}
 }
 
+// waitingPart: stream attempts that are WAITING for the connection (the target is unreachable) when the target is removed:
+// they must end promptly with Unavailable, with or without a deadline of their own
+func waitingPart(w *vc.Writer, r *vc.Rand) {
+	n := vc.Scale(12, 300)
+	for i := 0; i < n; i++ {
+		rr := r.Fork()
+		pool := grpcadapter.NewAdaptedClientPool(grpcadapter.AdaptedClientPoolOpts{
+			DefaultOpts: []grpc.DialOption{grpc.WithTransportCredentials(insecure.NewCredentials()),
+				grpc.WithContextDialer(func(ctx context.Context, _ string) (net.Conn, error) { return nil, errors.New("unreachable") })}})
+		ctl, err := pool.New("a", "passthrough:///unreachable")
+		if err != nil {
+			panic(err)
+		}
+		conn, _ := pool.Get("a")
+		callers := 1 + rr.Intn(4)
+		withDeadline := rr.Bool()
+		type res struct{ code int }
+		done := make(chan res, callers)
+		for c := 0; c < callers; c++ {
+			go func() {
+				ctx := context.Background()
+				if withDeadline {
+					var cancel context.CancelFunc
+					ctx, cancel = context.WithTimeout(ctx, 20*time.Second)
+					defer cancel()
+				}
+				_, err := conn.Stream(ctx, "/pkg.Svc/M")
+				done <- res{int(status.Code(err))}
+			}()
+		}
+		time.Sleep(time.Duration(5+rr.Intn(30)) * time.Millisecond)
+		ctl.Close()
+		codes := vc.L{}
+		deadline := time.After(2 * time.Second)
+		stuck := 0
+		for c := 0; c < callers; c++ {
+			select {
+			case x := <-done:
+				codes = append(codes, x.code)
+			case <-deadline:
+				stuck = callers - c
+				c = callers
+			}
+		}
+		w.Case(vc.L{callers, withDeadline}, vc.L{stuck, codes}, true)
+	}
+}
+
 func main() {
 	w := vc.NewWriter(os.Args[1])
 	defer w.Close()
@@ -296,5 +344,7 @@ func main() {
 		poolHistories(w, r, lis)
 	case "router":
 		routerHistories(w, r, lis)
+	case "waiting":
+		waitingPart(w, r)
 	}
 }
